@@ -105,4 +105,7 @@ mkdir -p "$EVDIR" "$RPDIR" "$W/scratch"
 "$W/verif" supervise -prop "$PROP" -tier "$TIER" -seed "$SEED" -workers "$WORKERS" -legs "$LEGS" \
   -level "$LEVEL" -evidence "$EVDIR/$PROP.json" -replays "$RPDIR" \
   -known "$HERE/known_findings.txt" -scratch "$W/scratch"
-exit $?
+RC=$?
+# keep the last thorough evidence next to the (quick-tier) evidence file that every run rewrites
+if [ "$TIER" = "thorough" ] && [ -f "$EVDIR/$PROP.json" ]; then mkdir -p "$EVDIR/thorough" && cp "$EVDIR/$PROP.json" "$EVDIR/thorough/$PROP.json"; fi
+exit $RC
